@@ -4,7 +4,7 @@ PROPS[pid]["rules"] = [(rule id, floor of decided instances, selector over insta
 Floors are the numbers counted on the tree the rules were written against: a rule that suddenly
 matches fewer sites is a broken check (exit 2), never a silent pass.
 """
-from . import tr, di, ug, em, wt, mf, lp, wc, mk, nc, lt, td, pm, hs, ws, tf, ec, se, bb, lc, cm, vt, bt, sr, le, wf, dp, dt, he, gl, ts, ee, sl, wp, fs, ic, nb, im, rn, mp, sp, ms, cp, sh, st, rh, vo, wi, law, cn, pr, dtr, sa, vx, fd, uv, tx, df, dn, pa
+from . import tr, di, ug, em, wt, mf, lp, wc, mk, nc, lt, td, pm, hs, ws, tf, ec, se, bb, lc, cm, vt, bt, sr, le, wf, dp, dt, he, gl, ts, ee, sl, wp, fs, ic, nb, im, rn, mp, sp, ms, cp, sh, st, rh, vo, wi, law, cn, pr, dtr, sa, vx, fd, uv, tx, df, dn, pa, ul
 
 
 def _k(r):
@@ -35,6 +35,7 @@ def vo_sel(*mods, only_label_order=False):
 RULES = {
     "LP": {"run": lp.run},
     "UG": {"run": ug.run},
+    "UL": {"run": ul.run},
     "DI": {"run": di.run},
     "TR": {"run": tr.run},
     "EM": {"run": em.run},
@@ -139,7 +140,7 @@ PROPS = {
     },
     "C06": {
         "level": "other",
-        "rules": [("PA", 1, None), ("DN", 1, None), ("DI", 0, None), ("WC", 2, has("watch-tables")), ("DF", 1, has("UnitPropagate", "VarOrder", "label-tables")), ("CP", 4, has("decision_nnf::")), ("TS", 7, has("TS-BAL")), ("DP", 3, has("topdown")),
+        "rules": [("PA", 1, None), ("UL", 0, None), ("DN", 1, None), ("DI", 0, None), ("WC", 2, has("watch-tables")), ("DF", 1, has("UnitPropagate", "VarOrder", "label-tables")), ("CP", 4, has("decision_nnf::")), ("TS", 7, has("TS-BAL")), ("DP", 3, has("topdown")),
                   ("GL", 3, has("component-cache", "topdown_h:GL11")), ("SP", 10, has("SP1")),
                   ("GL", 1, has("GL3:return-found")), ("RH", 1, has("grow:rehome")),
                   ("SH", 6, has("decision_nnf::")), ("RN", 3, has("RN4")),
@@ -241,7 +242,7 @@ PROPS = {
     },
     "C09": {
         "level": "other",
-        "rules": [("PA", 1, None), ("DI", 0, None), ("WC", 2, has("watch-tables")), ("DF", 1, has("UnitPropagate", "label-tables")), ("WP", 14, has("unit_prop")), ("TS", 5, has("TS-STK")), ("WI", 1, None), ("PR", 1, has("SATSolver")),
+        "rules": [("PA", 1, None), ("UL", 0, None), ("DI", 0, None), ("WC", 2, has("watch-tables")), ("DF", 1, has("UnitPropagate", "label-tables")), ("WP", 14, has("unit_prop")), ("TS", 5, has("TS-STK")), ("WI", 1, None), ("PR", 1, has("SATSolver")),
                   ("LT", 2, has("UnitPropagate")), ("PM", 5, has("::get:", "::unset:", "::is_set:", "::lit_implied:", "::lit_neg_implied:")),
                   ("WS", 20, None), ("TF", 1, None), ("EC", 4, None), ("LC", 1, has("UnitPropagate::decide")), ("LP", 6, None), ("UG", 1, None), ("EM", 2, has("unit_prop"))],
         "explanation": "Every pos/neg watch-list / occurrence-table access in unit_prop.rs is selected by the polarity of "
@@ -291,7 +292,7 @@ PROPS = {
     },
     "C15": {
         "level": "other",
-        "rules": [("PA", 1, None), ("DI", 0, None), ("DF", 1, has("CnfHasher", "label-tables")), ("EE", 3, None), ("IC", 5, has("repr::cnf::")), ("WP", 1, has("repr::cnf::")),
+        "rules": [("PA", 1, None), ("UL", 0, None), ("DI", 0, None), ("DF", 1, has("CnfHasher", "label-tables")), ("EE", 3, None), ("IC", 5, has("repr::cnf::")), ("WP", 1, has("repr::cnf::")),
                   ("FS", 3, has("repr::cnf::", "assignment_weight")), ("CN", 2, None),
                   ("PR", 1, has("CnfHasher")), ("LT", 2, has("CnfHasher")),
                   ("PM", 9, None), ("HS", 5, None), ("LC", 2, has("is_sat_partial", "Cnf::eval", "Cnf::condition")), ("LP", 6, None), ("WT", 1, has("from_litvec")), ("DP", 1, has("from_string:sign")), ("EM", 6, has("repr::cnf::"))],
